@@ -71,6 +71,54 @@ pub fn exec_agree(c: &AgreeCase, st: &mut Stats) -> Vec<Viol> {
             ));
         }
     }
+    // closure helpers whose closure does not deserialize the target: skipping the document
+    // (IgnoredAny) and not touching the deserializer at all must behave alike for string and reader input
+    if let Some(text) = c.doc.as_str() {
+        for mode in 0..2u8 {
+            let run_mode = |reader: Option<&Chunking>| -> Outcome {
+                let mut renders = Vec::new();
+                let opts = c.opts.to_options();
+                let f = move |de: serde_saphyr::Deserializer| -> Result<(), serde_saphyr::Error> {
+                    if mode == 0 {
+                        <serde::de::IgnoredAny as Deserialize>::deserialize(de).map(|_| ())
+                    } else {
+                        let _ = de;
+                        Ok(())
+                    }
+                };
+                match reader {
+                    None => lab::canon(guard(|| serde_saphyr::with_deserializer_from_str_with_options(text, opts, f)), &mut renders),
+                    Some(ch) => {
+                        let rd = SimReader::new(
+                            text.as_bytes(),
+                            ReaderScript {
+                                chunking: Some(ch.clone()),
+                                ..Default::default()
+                            },
+                        );
+                        lab::canon(guard(|| serde_saphyr::with_deserializer_from_reader_with_options(rd, opts, f)), &mut renders)
+                    }
+                }
+            };
+            let a = run_mode(None);
+            for ch in [Chunking::Whole, Chunking::Fixed(1)] {
+                let b = run_mode(Some(&ch));
+                st.evals += 2;
+                if a.agree_key() != b.agree_key() && !matches!(a, Outcome::Panic(_) | Outcome::Liveness(_)) {
+                    out.push(mk(
+                        "closure-helper-disagrees",
+                        format!(
+                            "closure that {}: with_deserializer_from_str gives {}, with_deserializer_from_reader ({ch:?}) gives {}",
+                            if mode == 0 { "skips the document (IgnoredAny)" } else { "ignores the deserializer" },
+                            a.short(),
+                            b.short()
+                        ),
+                        Some(ch.clone()),
+                    ));
+                }
+            }
+        }
+    }
     // BOM: the same text with one leading BOM added (or removed) gives the same result everywhere
     if let Some(text) = c.doc.as_str() {
         let other: String = match text.strip_prefix('\u{feff}') {
